@@ -104,3 +104,23 @@ int fx17_dec_good(uint32_t *dest, size_t dmax, uint32_t cp) { FX_DECOMP(dplaneA,
 int fx17_dec_shift(uint32_t *dest, size_t dmax, uint32_t cp) { FX_DECOMP(dplaneA, (vi >> 11), l) }
 int fx17_dec_stride(uint32_t *dest, size_t dmax, uint32_t cp) { FX_DECOMP(dplaneA, (vi >> 12), 2) }
 int fx17_dec_zero(uint32_t *dest, size_t dmax, uint32_t cp) { FX_DECOMP(dplaneB, ((vi >> 12) + 1), l) }
+
+/* ---- Hangul composition (UAX #15 3.12): decision table of the arithmetic part */
+extern const uint32_t fx17_pairs[];
+#define FX_HANGUL(LVTEST, TLAST)                                              \
+    if (!cp2) return 0;                                                       \
+    if (0x1100 <= cp && cp <= 0x1112 && 0x1161 <= cp2 && cp2 <= 0x1175)       \
+        return 0xAC00 + ((cp - 0x1100) * 21 + (cp2 - 0x1161)) * 28;           \
+    if (0xAC00 <= cp && cp <= 0xD7A3 && LVTEST && 0x11A7 < cp2 && cp2 <= TLAST) \
+        return cp + (cp2 - 0x11A7);                                           \
+    return fx17_pairs[(cp ^ cp2) & 0xff];
+uint32_t fx17_hangul_good(uint32_t cp, uint32_t cp2) { FX_HANGUL((cp - 0xAC00) % 28 == 0, 0x11C2) }
+uint32_t fx17_hangul_any_s(uint32_t cp, uint32_t cp2) { FX_HANGUL(1, 0x11C2) }
+uint32_t fx17_hangul_short_t(uint32_t cp, uint32_t cp2) { FX_HANGUL((cp - 0xAC00) % 28 == 0, 0x11C1) }
+uint32_t fx17_hangul_wrong_sum(uint32_t cp, uint32_t cp2) {
+    if (0x1100 <= cp && cp <= 0x1112 && 0x1161 <= cp2 && cp2 <= 0x1175)
+        return 0xAC00 + ((cp - 0x1100) * 21 + (cp2 - 0x1161)) * 28;
+    if (0xAC00 <= cp && cp <= 0xD7A3 && (cp - 0xAC00) % 28 == 0 && 0x11A7 < cp2 && cp2 <= 0x11C2)
+        return cp + (cp2 - 0x11A8);
+    return fx17_pairs[(cp ^ cp2) & 0xff];
+}
